@@ -48,6 +48,8 @@ def shards(tier, seed):
     sh += [("tags", i) for i in range(16)]
     sh += [("route-history", i) for i in range(3)]
     sh += [("upload-paths", pn, pers) for pn in ("P3", "P4", "P2") for pers in ("v20", "v32")] + [("upload-paths", "P3", "m800"), ("upload-paths", "P1", "m800")]
+    sh += [("driver-paths", pn, pers) for pn in ("P1", "P3") for pers in ("v20", "v21", "v32")] + [("driver-paths", "P1", "m800"), ("driver-paths", "P1", "v17")]
+    sh += [("tags", 3, "debuglog"), ("route-history", 0, "debuglog"), ("upload-paths", "P3", "v20", "debuglog"), ("reqpath", "debuglog")]
     return sh
 
 
@@ -396,6 +398,111 @@ def check_upload_paths(rep, pn, pers, page=0):
     rep.sample({"upload_paths": pn, "personality": pers, "programs": sorted(progs)})
 
 
+DRIVER_CASES = {
+    # (operation, tag as the application writes it, value for writes, the element the tag services must address)
+    "P1": [
+        ("read", "dint_s", None, "dint_s"), ("write", "dint_s", 77, "dint_s"), ("write", "dint_s.3", True, "dint_s"), ("read", "dint_s.31", None, "dint_s"),
+        ("read", "dint_ary[2]", None, "dint_ary[2]"), ("read", "dint_ary{6}", None, "dint_ary"), ("write", "dint_ary[1]{3}", [1, 2, 3], "dint_ary[1]"),
+        ("read", "d2[1,2]", None, "d2[1,2]"), ("write", "d2[2,3]", 9, "d2[2,3]"), ("read", "i3[1,2,3]", None, "i3[1,2,3]"), ("write", "i3[0,1,2]{4}", [1, 2, 3, 4], "i3[0,1,2]"),
+        # BOOL arrays live in 32-bit words: element i is bit i % 32 of word i // 32
+        # (a read may fetch the words from the start of the array and pick the bit: both word 0 and word i // 32 address the element)
+        ("read", "bools96[5]", None, "bools96[0]"), ("read", "bools96[40]", None, "bools96[1]|bools96[0]"), ("read", "bools96[95]", None, "bools96[2]|bools96[0]"),
+        ("write", "bools96[5]", True, "bools96[0]"), ("write", "bools96[40]", True, "bools96[1]"), ("write", "bools96[70]", False, "bools96[2]"),
+        ("write", "bools96[32]{32}", [bool(i % 3) for i in range(32)], "bools96[1]"), ("write", "bools96[64]{32}", [bool(i % 2) for i in range(32)], "bools96[2]"),
+        ("read", "bools96[32]{64}", None, "bools96[1]|bools96[0]"), ("read", "bools32[31]", None, "bools32[0]"),
+        ("read", "a_tag_name_of_exactly_forty_characters__", None, "a_tag_name_of_exactly_forty_characters__"), ("read", "X[16]", None, "X[16]"), ("read", "odd", None, "odd"),
+        # transfers too large for one packet: every fragment addresses the same element
+        ("read", "big_sint{9000}", None, "big_sint"), ("write", "big_sint{9000}", [i % 100 for i in range(9000)], "big_sint"),
+        ("read", "big_lint{700}", None, "big_lint"), ("write", "big_lint{700}", list(range(700)), "big_lint"), ("write", "big_sint[100]{8000}", [i % 50 for i in range(8000)], "big_sint[100]"),
+        ("read", "even_name[299]", None, "even_name[299]"), ("write", "even_name{300}", list(range(300)), "even_name"),
+    ],
+    "P3": [
+        ("read", "ctl_dint", None, "ctl_dint"), ("read", "ctl_udt.a", None, "ctl_udt.a"), ("write", "ctl_udt.a", 5, "ctl_udt.a"), ("write", "ctl_udt.a.2", True, "ctl_udt.a"),
+        ("read", "ctl_ary[9]", None, "ctl_ary[9]"), ("read", "Program:MainProgram.p_dint", None, "Program:MainProgram.p_dint"), ("write", "Program:MainProgram.p_dint", 3, "Program:MainProgram.p_dint"),
+        ("read", "Program:MainProgram.p_ary[2]", None, "Program:MainProgram.p_ary[2]"), ("write", "Program:MainProgram.p_ary{4}", [1.0, 2.0, 3.0, 4.0], "Program:MainProgram.p_ary"),
+        ("read", "Program:MainProgram.p_udt.s.LEN", None, "Program:MainProgram.p_udt.s.LEN"), ("write", "Program:MainProgram.p_bools[40]", True, "Program:MainProgram.p_bools[1]"),
+        ("read", "Program:MainProgram.p_bools[33]", None, "Program:MainProgram.p_bools[1]|Program:MainProgram.p_bools[0]"), ("write", "Program:MainProgram.p_dint.7", True, "Program:MainProgram.p_dint"),
+        ("read", "Program:Second_Prog.ctl_dint", None, "Program:Second_Prog.ctl_dint"), ("read", "Program:Second_Prog.p2_str", None, "Program:Second_Prog.p2_str"),
+    ],
+}
+TAG_SERVICES = (0x4C, 0x4D, 0x4E, 0x52, 0x53)
+
+
+def check_driver_paths(rep, pn, pers):
+    """Reads and writes through the driver against the reference controller: the path of every tag service the controller
+    receives (single, embedded in a Multiple Service Packet, every fragment, read-modify-write) parses to the element the
+    call addresses; symbol-instance addressing only where the controller has it; the call succeeds."""
+    import pycomm3
+    from vmc.ref import logix, net, projgen
+    from vmc.ref.projects import fill_image
+    from .harness import call, make_target
+
+    proj = projgen.build(pn, 0)
+    try:
+        fill_image(proj, 0)
+    except Exception:  # noqa - projects without an image filler start from zeros
+        pass
+    ctl = logix.LogixController(proj, pers)
+    ids_ok = ctl.pers.instance_addressing
+    iid_of = {s_.name: s_.instance_id for s_ in proj.symbols if s_.kind in ("tag", "module")}
+    t = make_target(ctl)
+    where = {"kind": "driver-paths", "project": pn, "pers": pers}
+
+    def intended(wire):
+        base = wire.split(".")[0].split("[")[0]
+        forms = [E.tag_segments(wire)]
+        if "[" not in wire.split(".")[-1]:
+            forms.append(E.tag_segments(wire + "[0]"))
+        if ids_ok and not wire.startswith("Program:"):
+            forms += [E.tag_segments(w_, iid_of[base]) for w_ in ([wire] if len(forms) == 1 else [wire, wire + "[0]"])]
+        return forms
+
+    def one_call(label, fn, wires):
+        t.cip_log.clear()
+        n_ev = len(t.events)
+        w.io_budget = w.io_total + 200000
+        out = call(fn)
+        res = out[1] if out[0] == "ok" else None
+        good = out[0] == "ok" and (all(bool(x) for x in res) if isinstance(res, list) else bool(res))
+        seen = [[tuple(x) for x in e["path"]] for e in t.cip_log if e["service"] in TAG_SERVICES]
+        allowed = [f for wire in wires for alt in wire.split("|") for f in intended(alt)]
+        bad = [p for p in seen if p not in allowed]
+        flagged = [e for e in t.events[n_ev:] if e[0].startswith("C09")]
+        prob = None
+        if bad:
+            prob = ("wrong-element", f"the controller received a tag service for {bad[0]!r}; the call addresses {allowed[0]!r}")
+        elif flagged:
+            prob = ("target-flagged", f"{flagged[0][0]}: {flagged[0][1]:.100}")
+        elif not good:
+            prob = ("call-failed", f"result {out!r:.120}")
+        elif not seen:
+            prob = ("nothing-sent", "no tag service reached the controller")
+        rep.case(("driver-path", pn, pers, label), outcome=f"ok:{len(seen)}-requests" if prob is None else prob[0], calls=max(1, len(seen)))
+        if prob:
+            kind_ = "bool-array" if "bools" in label else "fragmented" if "big_" in label else "bit" if label.rsplit(".", 1)[-1].isdigit() else "plain"
+            rep.violation(f"driver-path/{prob[0]}/{label.split(' ')[0]}/{kind_}/{'symbolic' if not ids_ok else 'instance-ids'}", f"{pn}/{pers}: {label}: {prob[1]}", where)
+
+    with net.World(t, io_budget=10**9) as w:
+        d = pycomm3.LogixDriver("10.0.0.1")
+        o = call(d.open)
+        if o != ("ok", True):
+            rep.violation("driver-path/open-failed", f"{pn}/{pers}: open() -> {o!r:.100}", where)
+            return
+        cases = DRIVER_CASES[pn]
+        for op, tag, val, wire in cases:
+            if op == "read":
+                one_call(f"read {tag}", lambda: d.read(tag), [wire])
+            else:
+                one_call(f"write {tag}", lambda: d.write(tag, val), [wire])
+        # the same requests in one call (Multiple Service Packets, fragmented ones in between)
+        reads = [(tag, wire) for op, tag, val, wire in cases if op == "read"]
+        writes = [(tag, val, wire) for op, tag, val, wire in cases if op == "write"]
+        one_call("read all-in-one-call", lambda: d.read(*[tg for tg, _ in reads]), [w_ for _, w_ in reads])
+        one_call("write all-in-one-call", lambda: d.write(*[(tg, v) for tg, v, _ in writes]), [w_ for _, _, w_ in writes])
+        call(d.close)
+    rep.sample({"driver_paths": pn, "personality": pers, "calls": len(DRIVER_CASES[pn]) + 2, "instance_addressing": ids_ok})
+
+
 def run_shard(shard, tier, seed):
     rep = Report()
     k = shard[0]
@@ -415,6 +522,8 @@ def run_shard(shard, tier, seed):
         check_epathopts(rep)
     elif k == "tags":
         check_tags(rep, shard[1], tier)
+    elif k == "driver-paths":
+        check_driver_paths(rep, shard[1], shard[2])
     elif k == "upload-paths":
         for page in (0, 1, 2):  # symbol lists in one reply, one symbol per reply, two per reply: continuation requests must keep their scope
             check_upload_paths(rep, shard[1], shard[2], page)
@@ -444,6 +553,8 @@ def replay(r):
         rep = run_shard(("route-history", r["shard"]), "quick", 0)
     elif k == "upload-paths":
         check_upload_paths(rep, r["project"], r["pers"])
+    elif k == "driver-paths":
+        check_driver_paths(rep, r["project"], r["pers"])
     elif k == "reqpath":
         check_reqpath(rep)
     elif k in ("port", "bigport", "badlink", "badport"):
